@@ -54,6 +54,7 @@ EXTERNALS = {
     'Function2D.evaluate': _virtual('real', 'raysect Function2D: pure function of its arguments'),
     'Function3D.evaluate': _virtual('real', 'raysect Function3D: pure function of its arguments'),
     'VectorFunction3D.evaluate': _virtual('ref:Vector3D', 'raysect VectorFunction3D: pure function of its arguments'),
+    'VectorFunction1D.evaluate': _virtual('ref:Vector3D', 'raysect vector Function1D: pure function of its argument'),
     'VectorFunction2D.evaluate': _virtual('ref:Vector3D', 'raysect VectorFunction2D: pure function of its arguments'),
 }
 
